@@ -86,6 +86,60 @@ macro_rules
       | split))
 
 theorem Pres.liftOp (r : OpRes) : Pres (liftOp r) := by cases r <;> simp only [Never.Src.liftOp] <;> pres_core
+theorem Pres.loadVals (ls : List Loc) : Pres (loadVals ls) := by
+  induction ls with
+  | nil => simp only [Never.Src.loadVals]; pres_core
+  | cons l ls ih => simp only [Never.Src.loadVals]; pres_core
+theorem Pres.allocRes (rs : List OpRes) : Pres (allocRes rs) := by
+  induction rs with
+  | nil => simp only [Never.Src.allocRes]; pres_core
+  | cons r rs ih =>
+    simp only [Never.Src.allocRes]
+    apply Pres.bind (Pres.liftOp _); intro v
+    apply Pres.bind (Pres.alloc _); intro c
+    apply Pres.bind ih; intro rest
+    exact Pres.pure _
+theorem Pres.arrObjOf (o : Loc) : Pres (arrObjOf o) := by unfold Never.Src.arrObjOf; pres_core
+theorem Pres.newArr (d : List Nat) (cs : List Loc) : Pres (newArr d cs) := by unfold Never.Src.newArr; pres_core
+theorem Pres.arrMap (f : Val → OpRes) (a : Option Loc) : Pres (arrMap f a) := by
+  unfold Never.Src.arrMap
+  split
+  · exact Pres.throwE _
+  · apply Pres.bind (Pres.arrObjOf _); intro de
+    apply Pres.bind (Pres.loadVals _); intro vs
+    apply Pres.bind (Pres.allocRes _); intro cells
+    exact Pres.newArr _ _
+theorem Pres.arrZip (op : BinOp) (a b : Option Loc) : Pres (arrZip op a b) := by
+  unfold Never.Src.arrZip
+  split
+  · apply Pres.bind (Pres.arrObjOf _); intro de1
+    apply Pres.bind (Pres.arrObjOf _); intro de2
+    split
+    · apply Pres.bind (Pres.loadVals _); intro v1
+      apply Pres.bind (Pres.loadVals _); intro v2
+      apply Pres.bind (Pres.allocRes _); intro cells
+      exact Pres.newArr _ _
+    · exact Pres.throwE _
+  · exact Pres.throwE _
+theorem Pres.matMul (a b : Option Loc) : Pres (matMul a b) := by
+  unfold Never.Src.matMul
+  split
+  · apply Pres.bind (Pres.arrObjOf _); intro de1
+    apply Pres.bind (Pres.arrObjOf _); intro de2
+    split
+    · split
+      · apply Pres.bind (Pres.loadVals _); intro v1
+        apply Pres.bind (Pres.loadVals _); intro v2
+        apply Pres.bind (Pres.allocRes _); intro cells
+        exact Pres.newArr _ _
+      · exact Pres.stuck _
+    · exact Pres.throwE _
+  · exact Pres.throwE _
+theorem Pres.unopM (op : UnOp) (a : Val) : Pres (unopM op a) := by
+  unfold Never.Src.unopM
+  split
+  · exact Pres.arrMap _ _
+  · exact Pres.liftOp _
 theorem Pres.binopM (op : BinOp) (a b : Val) : Pres (binopM op a b) := by
   unfold Never.Src.binopM
   split
@@ -99,6 +153,13 @@ theorem Pres.binopM (op : BinOp) (a b : Val) : Pres (binopM op a b) := by
     split
     · exact Pres.pure _
     · exact Pres.stuck _
+  · exact Pres.arrZip _ _ _
+  · exact Pres.arrZip _ _ _
+  · exact Pres.matMul _ _
+  · exact Pres.arrMap _ _
+  · exact Pres.arrMap _ _
+  · exact Pres.arrMap _ _
+  · exact Pres.arrMap _ _
   · exact Pres.liftOp _
 theorem Pres.truthy (v : Val) : Pres (truthy v) := by unfold Never.Src.truthy; pres_core
 theorem Pres.convCell (t : Ty) (l : Loc) : Pres (convCell t l) := by unfold Never.Src.convCell; pres_core
@@ -130,14 +191,6 @@ theorem Pres.loadAll (ls : List Loc) : Pres (loadAll ls) := by
   | nil => simp only [Never.Src.loadAll]; pres_core
   | cons l ls ih => simp only [Never.Src.loadAll]; pres_core
 theorem Pres.assignVal (a b : Val) : Pres (assignVal a b) := by unfold Never.Src.assignVal; pres_core
-theorem Pres.bindDims (ds : List Name) (dims : List Nat) (env : Env) : Pres (bindDims ds dims env) := by
-  induction ds generalizing dims env with
-  | nil => simp only [Never.Src.bindDims]; pres_core
-  | cons d ds ih =>
-    cases dims with
-    | nil => simp only [Never.Src.bindDims]; apply Pres.bind (Pres.alloc _); intro c; exact ih _ _
-    | cons n ns => simp only [Never.Src.bindDims]; apply Pres.bind (Pres.alloc _); intro c; exact ih _ _
-theorem Pres.arrDims (l : Loc) : Pres (arrDims l) := by unfold Never.Src.arrDims; pres_core
 /-- `pres_core` with extra closing terms tried first (lemmas about helper functions that `apply Pres.bind`
 would otherwise unfold) -/
 syntax "pres_with" "[" term,* "]" : tactic
@@ -207,25 +260,14 @@ theorem Pres.slcLoopInit (so : Loc) : Pres (slcLoopInit so) := by
 theorem Pres.rngElem (ao : Option Loc) (cur : Int) : Pres (rngElem ao cur) := by
   unfold Never.Src.rngElem; pres_with [Pres.arrDeref _ _]
 theorem Pres.pipeArgs (l : Loc) : Pres (pipeArgs l) := by unfold Never.Src.pipeArgs; pres_core
-theorem Pres.rngCells (o : Loc) : Pres (rngCells o) := by unfold Never.Src.rngCells; pres_core
-theorem Pres.slcDimCells (so : Loc) : Pres (slcDimCells so) := by
-  unfold Never.Src.slcDimCells; pres_with [Pres.rngBounds _, Pres.allocInts _]
-theorem Pres.bindDimsCells (ds : List Name) (m : M (List Loc)) (env : Env) (h : Pres m) : Pres (bindDimsCells ds m env) := by
-  unfold Never.Src.bindDimsCells; pres_core
-theorem Pres.bindDimsArr (ds : List Name) (l : Loc) (env : Env) : Pres (bindDimsArr ds l env) := by
-  unfold Never.Src.bindDimsArr; pres_with [Pres.arrDims _, Pres.bindDims _ _ _]
-theorem Pres.bindDimsOf (ds : List Name) (l : Loc) (env : Env) : Pres (bindDimsOf ds l env) := by
-  unfold Never.Src.bindDimsOf
-  have h1 := fun o => Pres.bindDimsCells ds (Never.Src.rngCells o) env (Pres.rngCells o)
-  have h2 := fun o => Pres.bindDimsCells ds (Never.Src.slcDimCells o) env (Pres.slcDimCells o)
-  have h3 := Pres.bindDimsArr ds l env
-  apply Pres.bind (Pres.load _); intro v
-  split
-  · exact h1 _
-  · exact h2 _
-  · exact Pres.stopM _
-  · exact Pres.stopM _
-  · exact h3
+theorem Pres.dimValue (p : Loc) (k : Nat) : Pres (dimValue p k) := by
+  unfold Never.Src.dimValue; pres_with [Pres.rngBounds _]
+theorem Pres.bindDimRefs (ds : List Name) (l : Loc) (k : Nat) (env : Env) : Pres (bindDimRefs ds l k env) := by
+  induction ds generalizing k env with
+  | nil => simp only [Never.Src.bindDimRefs]; pres_core
+  | cons d ds ih => simp only [Never.Src.bindDimRefs]; apply Pres.bind (Pres.alloc _); intro c; exact ih _ _
+theorem Pres.bindDimsOf (ds : List Name) (l : Loc) (env : Env) : Pres (bindDimsOf ds l env) :=
+  Pres.bindDimRefs ds l 0 env
 theorem Pres.bindParams (ps : List Param) (args : List Loc) (env : Env) : Pres (bindParams ps args env) := by
   induction ps generalizing args env with
   | nil => simp only [Never.Src.bindParams]; pres_core
